@@ -16,6 +16,7 @@ import (
 // key alphabets: a key is an index into one of these
 var c13NumKeys = []string{"0", "1", "2", "-1", "10"}
 var c13StrKeys = []string{`"a"`, `"b"`, `"c"`, `"B"`, `"é"`}
+var c13BigKeys = []string{"9007199254740992", "9007199254740993", "9007199254740994", "12345678901234567890", "12345678901234567891", "0.1", "0.10000000000000001", "1e30", "-9007199254740993"}
 var c13Spell = []string{"1", "1.0", "1e0", "2", `"a"`, `"b"`, `"é"`, `"😀"`, "null", "[1]"}
 
 var c13Ops = []string{"sort_by", "min_by", "max_by", "sort", "min", "max"}
@@ -47,6 +48,8 @@ func (c c13Case) keyText(i int) string {
 		return c13NumKeys[c.Keys[i]]
 	case "str":
 		return c13StrKeys[c.Keys[i]]
+	case "big":
+		return c13BigKeys[c.Keys[i]]
 	}
 	return c13Spell[c.Keys[i]]
 }
@@ -290,6 +293,8 @@ func c13Enumerate(thorough bool, f func(c13Case)) {
 		rec(kind, 5, 4, nil)
 	}
 	rec("spell", len(c13Spell), spell, nil)
+	// numbers that differ below the resolution of binary64
+	rec("big", len(c13BigKeys), 3, nil)
 	// long arrays: complete pattern families
 	for _, kind := range []string{"num", "str"} {
 		for n := 13; n <= 64; n++ {
@@ -360,7 +365,7 @@ func c13Run(r *core.Run) {
 			r.Sample(func() any { return map[string]any{"kind": c.Kind, "keys": c.keysText(), "ops": c13Ops} })
 		}
 	})
-	r.Bound("key_alphabets", map[string]any{"num": c13NumKeys, "str": c13StrKeys, "spell": c13Spell})
+	r.Bound("key_alphabets", map[string]any{"num": c13NumKeys, "str": c13StrKeys, "spell": c13Spell, "big": c13BigKeys})
 	r.Bound("max_length_two_keys", map[bool]int{false: 14, true: 16}[r.Thorough()])
 	r.Bound("long_pattern_lengths", "13..64")
 }
